@@ -397,13 +397,14 @@ theorem isTitle_not_ext (h : Str) (ht : isTitle h = true) : extKind h = none := 
 
 /-! ### stage 4 (link, guid / id): table facts, frame and inversion lemmas -/
 
-/-- table facts about the stage-4 kinds: they have handlers, are not structural, not date elements, not text constructs, not stage-3 kinds -/
+/-- table facts about the stage-4 / 5 kinds: they have a start handler (enclosure has no end handler), are not structural, not date elements, not text
+constructs, not stage-3 kinds -/
 theorem lg_names_facts :
-    Gen.Mixin.stage4L.all (fun e => hasStart e.1 && hasEnd e.1 && (dateKey e.1).isNone && (contentEndKey e.1).isNone && (extKind e.1).isNone &&
+    Gen.Mixin.stage4L.all (fun e => hasStart e.1 && (dateKey e.1).isNone && (contentEndKey e.1).isNone && (extKind e.1).isNone &&
       !(e.1 == S "rss") && !(e.1 == S "channel") && !(e.1 == S "feed") && !(e.1 == S "item") && !(e.1 == S "entry")) = true := by decide +kernel
 
 theorem lgKind_facts (h kind : Str) (hk : lgKind h = some kind) :
-    hasStart h = true ∧ hasEnd h = true ∧ dateKey h = none ∧ contentEndKey h = none ∧ extKind h = none ∧
+    hasStart h = true ∧ dateKey h = none ∧ contentEndKey h = none ∧ extKind h = none ∧
     (h == S "rss") = false ∧ (h == S "channel") = false ∧ (h == S "feed") = false ∧ (h == S "item") = false ∧ (h == S "entry") = false := by
   unfold lgKind at hk
   cases hf : Gen.Mixin.stage4L.find? (·.1 == h) with
@@ -415,29 +416,24 @@ theorem lgKind_facts (h kind : Str) (hk : lgKind h = some kind) :
     have : e.1 = h := by simpa using he
     rw [this] at hall
     simp only [Bool.and_eq_true, Bool.not_eq_true', Option.isNone_iff_eq_none] at hall
-    obtain ⟨⟨⟨⟨⟨⟨⟨⟨⟨a, b⟩, c⟩, d⟩, x⟩, e1⟩, e2⟩, e3⟩, e4⟩, e5⟩ := hall
-    exact ⟨a, b, c, d, x, e1, e2, e3, e4, e5⟩
+    obtain ⟨⟨⟨⟨⟨⟨⟨⟨a, c⟩, d⟩, x⟩, e1⟩, e2⟩, e3⟩, e4⟩, e5⟩ := hall
+    exact ⟨a, c, d, x, e1, e2, e3, e4, e5⟩
 
 theorem lgKind_none_of_noStart (h : Str) (hno : hasStart h = false) : lgKind h = none := by
   cases hk : lgKind h with
   | none => rfl
   | some k => have := (lgKind_facts h k hk).1; rw [hno] at this; cases this
 
-theorem lgKind_none_of_noEnd (h : Str) (hno : hasEnd h = false) : lgKind h = none := by
-  cases hk : lgKind h with
-  | none => rfl
-  | some k => have := (lgKind_facts h k hk).2.1; rw [hno] at this; cases this
-
 theorem dateKey_not_lg (h : Str) (kp : Str × Str) (hk : dateKey h = some kp) : lgKind h = none := by
   cases hx : lgKind h with
   | none => rfl
-  | some kind => have := (lgKind_facts h kind hx).2.2.1; rw [hk] at this; cases this
+  | some kind => have := (lgKind_facts h kind hx).2.1; rw [hk] at this; cases this
 
 theorem isTitle_not_lg (h : Str) (ht : isTitle h = true) : lgKind h = none := by
   cases hx : lgKind h with
   | none => rfl
   | some kind =>
-    have := (lgKind_facts h kind hx).2.2.2.1
+    have := (lgKind_facts h kind hx).2.2.1
     unfold contentEndKey at this
     simp [ht] at this
 
@@ -445,7 +441,7 @@ theorem contentKey_not_lg (h : Str) (k : Str × Str) (hk : contentKey h = some k
   cases hx : lgKind h with
   | none => rfl
   | some kind =>
-    have := (lgKind_facts h kind hx).2.2.2.1
+    have := (lgKind_facts h kind hx).2.2.1
     unfold contentEndKey at this
     split at this
     · cases this
@@ -552,7 +548,14 @@ theorem startLG_frame4 (o : Ops) (c : Core) (kind : Str) (a : List (Str × Str))
         exact Frame4.trans (c := putContext _ _) (b := { c with isentrylink := _ }) (Frame4.refl c) (putContext_frame4 _ _)
   · split at h
     · injection h with h; injection h with h1 _; rw [← h1]; exact Frame4.refl c
-    · cases h
+    · split at h
+      · injection h with h; injection h with h1 _; rw [← h1]; exact putContext_frame4 _ _
+      · split at h
+        · injection h with h; injection h with h1 _; rw [← h1]
+          unfold startEnclosure
+          simp only
+          split <;> exact putContext_frame4 _ _
+        · cases h
 
 theorem popLink_frame4 (o : Ops) (s : MSt) :
     Frame4 s.c (popLink o s).c ∧ ((popLink o s).stack = s.stack ∨ ∃ top, s.stack = top :: (popLink o s).stack) := by
@@ -594,6 +597,12 @@ theorem endLG_ok (o : Ops) (s s' : MSt) (kind : Str) (h : endLG o s kind = .ok s
   · split at h
     · injection h with h
       exact ⟨endGuidCore o s, (pop o s (S "id")).stack, endGuidCore_frame4 o s, h.symm, pop_stack o s _⟩
-    · cases h
+    · split at h
+      · injection h with h
+        exact ⟨_, (pop o s (S "category")).stack, (pop_frame4 o s _).trans (putContext_frame4 _ _), h.symm, pop_stack o s _⟩
+      · split at h
+        · injection h with h
+          exact ⟨_, (pop o s (S "enclosure")).stack, pop_frame4 o s _, h.symm, pop_stack o s _⟩
+        · cases h
 
 end FeedVerif.Mixin
